@@ -1,6 +1,6 @@
 (* Props/C05.v — cw3: passed proposals execute at most once; the lifecycle only moves forward. *)
 Require Import CwPlus.Params CwPlus.Base CwPlus.AMap CwPlus.Cw3Threshold CwPlus.Cw4Model CwPlus.Cw3Model
-  CwPlus.Cw3ThresholdLemmas CwPlus.Cw3Lemmas CwPlus.Cw3Lemmas2 CwPlus.Cw3Lemmas3.
+  CwPlus.Cw3ThresholdLemmas CwPlus.Cw3Lemmas CwPlus.Cw3Lemmas2 CwPlus.Cw3Lemmas3 CwPlus.Cw4Lemmas CwPlus.Cw3Lemmas4 CwPlus.Cw3Lemmas5.
 Open Scope N_scope.
 
 (* Execute is accepted only while the proposal's status (the same function the queries report) is
@@ -83,6 +83,35 @@ Theorem c05_monotone : forall ms gv b0 b1 b2 sender o ms' out id p q s s',
   prop_status p b0 = Some s -> prop_status q b2 = Some s' -> forward s s' = true.
 Proof. exact status_moves_forward. Qed.
 
+(* THE LIFECYCLE OVER WHOLE HISTORIES, range condition discharged.  cw3-fixed: take any history cs1,
+   look at proposal id at a block bq not before the last call, continue with any history cs2 (blocks
+   not going backwards) and look again at bq' not before its last call: the two reported statuses are
+   related by `forward` (Open -> anything, Passed -> Passed | Executed, Rejected -> Rejected,
+   Executed -> Executed) *)
+Theorem c05_fixed_history : forall m gv ms cs1 cs2 b0 bq bq' id p q s s',
+  instantiate m gv = Ok ms -> i_flex m = false -> hmono b0 cs1 -> block_le (hlast b0 cs1) bq -> hmono bq cs2 ->
+  block_le (hlast bq cs2) bq' ->
+  getp (hrun ms cs1) id = Some p -> getp (hrun (hrun ms cs1) cs2) id = Some q ->
+  prop_status p bq = Some s -> prop_status q bq' = Some s' -> forward s s' = true.
+Proof. exact fixed_forward_history. Qed.
+(* cw3-flex with its group, every interleaving of multisig calls and group transactions outside D3 *)
+Theorem c05_flex_history : forall m gv ms g cs1 cs2 b0 bq bq' id p q s s',
+  Cw3Model.instantiate m gv = Ok ms -> i_flex m = true -> Cw4Lemmas.WInv g (height b0) ->
+  fbmono b0 cs1 -> outside_d3 (ms, g) (cs1 ++ cs2) ->
+  block_le (flast b0 cs1) bq -> fbmono bq cs2 -> block_le (flast bq cs2) bq' ->
+  getp (fst (frun (ms, g) cs1)) id = Some p -> getp (fst (frun (frun (ms, g) cs1) cs2)) id = Some q ->
+  prop_status p bq = Some s -> prop_status q bq' = Some s' -> forward s s' = true.
+Proof. exact flex_forward_history. Qed.
+Example c05_history_nonvacuous :
+  exists ms, instantiate (mkInit false [(Some 1, 2); (Some 2, 1); (Some 3, 1)] (AbsCount 3) (DHeight 5) None None true) gview_none = Ok ms /\
+    let cs1 := [(gview_none, mkBlock 10 0, 1, Propose 7 [PBank 3 5] None [])] in
+    let cs2 := [(gview_none, mkBlock 11 0, 2, Vote 1 VYes); (gview_none, mkBlock 12 0, 3, Execute 1)] in
+    hmono (mkBlock 10 0) cs1 /\ hmono (mkBlock 10 0) cs2 /\
+    q_status (hrun ms cs1) (mkBlock 10 0) 1 = Some Open /\ q_status (hrun (hrun ms cs1) cs2) (mkBlock 12 0) 1 = Some Executed.
+Proof.
+  eexists. split; [reflexivity|]. cbv zeta. split; [apply hmono_b_sound; vm_compute; reflexivity|].
+  split; [apply hmono_b_sound; vm_compute; reflexivity|]. split; vm_compute; reflexivity.
+Qed.
 Example c05_nonvacuous :
   exists ms, instantiate (mkInit false [(Some 1, 2); (Some 2, 1)] (AbsCount 2) (DHeight 5) None None true) gview_none = Ok ms /\
     let cs := [(gview_none, mkBlock 10 0, 1, Propose 7 [PSelfExec 1; PBank 3 5] None []);
@@ -100,3 +129,5 @@ Print Assumptions c05_immutable.
 Print Assumptions c05_propose.
 Print Assumptions c05_reachable.
 Print Assumptions c05_monotone.
+Print Assumptions c05_fixed_history.
+Print Assumptions c05_flex_history.
